@@ -221,3 +221,32 @@ def single_threaded_torch():
         torch.set_num_interop_threads(1)
     except RuntimeError:
         pass
+
+
+def guarded_stream(run, name, fn, *args, **kwargs):
+    """Run one stream. An exception that escapes it is a harness problem (INFRA) — unless it was raised *inside the library* by a call the
+    stream makes while preparing its inputs or its single-threaded reference (saving the tensordict that is going to be mapped, loading
+    the reference directory, …): the unmodified library does not raise there, so that is reported as a failure of the property on this
+    input (with the traceback's library frame), not as "no verdict"."""
+    import os
+    import traceback
+    from common import Infra
+    try:
+        return fn(*args, **kwargs)
+    except (Infra, KeyboardInterrupt, SystemExit):
+        raise
+    except TimeoutError as e:
+        raise Infra(f"stream {name}: {e}")
+    except Exception as e:  # noqa: BLE001
+        tb = traceback.extract_tb(e.__traceback__)
+        repo = os.path.realpath(os.environ.get("VERIF_REPO", "/repo"))
+        inner = tb[-1] if tb else None
+        in_library = inner is not None and os.path.realpath(inner.filename).startswith(repo + os.sep)
+        if not in_library:
+            raise
+        harness_frames = [f for f in tb if os.sep + "harness" + os.sep in f.filename]
+        where = f"{os.path.basename(harness_frames[-1].filename)}:{harness_frames[-1].lineno}" if harness_frames else "?"
+        run.oracle_fail("stream_setup", {"stream": name, "at": where},
+                        f"stream {name}: the library raised {type(e).__name__}: {str(e)[:160]} in {os.path.basename(inner.filename)}:{inner.lineno} ({inner.name}) "
+                        f"while the stream prepared its inputs / reference at {where}", f"setup:{name}:{type(e).__name__}")
+        return None
